@@ -501,7 +501,7 @@ fn o_trunc_t(unit: i64, y: i32, m: u32, d: u32, n: i32) -> i32 {
         }
         3 => o_daynum_t(y, (m - 1) / 3 * 3 + 1, 1),
         4 => o_daynum_t(y, m, 1),
-        5 => n - ((o_doy(y, m, d) as i32 - 1) % 7),
+        5 => n - ((n - o_daynum_t(y, 1, 1)) % 7),
         6 => n - ((wd + 5) % 7),
         7 => n - ((d as i32 - 1) % 7),
         9 => n - (wd - 1),
@@ -538,7 +538,7 @@ fn s10_date(unit: i64, ylo: i32, yhi: i32) {
     }
 }
 
-//@ unit s11_date prop=C11,C02,C03 engine=smt chunks=tuples:0,1,9999;1,1,9999;2,1,9999;3,1,9999;4,1,9999;6,1,9999;7,1,9999;8,1,9999;9,1,9999;10,1,9999;11,1,9999 quick=all timeout=3000 mem=4 bound="Date rounding to the unit given by the first parameter (all units but the year-anchored week, which c11_date__v5 covers) for every real date of the years given by the other two: the documented neighbour, DateOutOfRange iff it lies outside 0001-01-01..9999-12-31; for the century unit the years divisible by 100 are excluded here (c11_century_y00_*); Date::extract under its contract"
+//@ unit s11_date prop=C11,C02,C03 engine=smt chunks=tuples:0,1,9999;1,1,9999;2,1,9999;3,1,9999;4,1,9999;5,1,9999;6,1,9999;7,1,9999;8,1,9999;9,1,9999;10,1,9999;11,1,9999 quick=all timeout=3000 mem=4 bound="Date rounding to the unit given by the first parameter for every real date of the years given by the other two: the documented neighbour, DateOutOfRange iff it lies outside 0001-01-01..9999-12-31; for the century unit the years divisible by 100 are excluded here (c11_century_y00_*); Date::extract under its contract"
 fn s11_date(unit: i64, ylo: i32, yhi: i32) {
     let y: i32 = kani::any();
     let m: u32 = kani::any();
@@ -568,7 +568,7 @@ fn s11_date(unit: i64, ylo: i32, yhi: i32) {
             }
         }
         4 => if d >= 16 { if m == 12 { if y == 9999 { big } else { o_daynum_t(y + 1, 1, 1) as i64 } } else { o_daynum_t(y, m + 1, 1) as i64 } } else { o_daynum_t(y, m, 1) as i64 },
-        5 => week((o_doy(y, m, d) as i32 - 1) % 7),
+        5 => week((n - o_daynum_t(y, 1, 1)) % 7),
         6 => week((wd + 5) % 7),
         7 => week((d as i32 - 1) % 7),
         9 => week(wd - 1),
